@@ -20,9 +20,11 @@ IDS="$*"; [ -z "$IDS" ] && IDS="$(ls "$SEEDED")"
 for ID in $IDS; do
   DIR="$SEEDED/$ID"
   PROPS="${VERIF_SWEEP_PROPS:-$(python3 -c "import json;print(json.load(open('$DIR/meta.json'))['property'])")}"
-  git -C $S/repo checkout -q -- . ; git -C $S/repo clean -fdq
+  # (a three-way apply that ends in conflicts leaves unmerged paths: only a hard reset gets rid of them)
+  git -C $S/repo reset -q --hard HEAD; git -C $S/repo clean -fdq
   if ! git -C $S/repo apply --whitespace=nowarn "$DIR/patch.diff" 2>/dev/null; then
     if ! git -C $S/repo apply --3way --whitespace=nowarn "$DIR/patch.diff" 2>/dev/null; then
+      git -C $S/repo reset -q --hard HEAD
       echo "$ID: PATCH-DOES-NOT-APPLY" | tee -a $S/results.txt; continue
     fi
   fi
